@@ -94,6 +94,21 @@ class Real(object):
         elif self.kind == 'bare':
             self.proto = ModbusClientProtocol()
             self.builder = ModbusSocketFramer(ServerDecoder())
+        elif self.kind == 'framercls':
+            # the framer given as a CLASS (the constructor instantiates it)
+            if variant == 'dict':
+                self.proto = ModbusClientProtocol(framer=ModbusSocketFramer)
+                self.builder = ModbusSocketFramer(ServerDecoder())
+            else:
+                self.proto = ModbusClientProtocol(framer=ModbusRtuFramer)
+                self.builder = ModbusRtuFramer(ServerDecoder())
+        elif self.kind == 'tcpframercls':
+            if variant == 'dict':
+                self.proto = ModbusTcpClientProtocol(framer=ModbusSocketFramer)
+                self.builder = ModbusSocketFramer(ServerDecoder())
+            else:
+                self.proto = ModbusSerClientProtocol(framer=ModbusRtuFramer)
+                self.builder = ModbusRtuFramer(ServerDecoder())
         elif variant == 'dict':
             self.proto = ModbusClientProtocol(ModbusSocketFramer(ClientDecoder()))
             self.builder = ModbusSocketFramer(ServerDecoder())
@@ -461,7 +476,7 @@ def check_cases(ctx, rep, cases, spec_limit=160):
         rep.sample({k: v for k, v in case.items() if k != 'tag'} if len(str(case)) < 600 else {'kind': case.get('kind'), 'ops': len(c['ops'])}, cap=4)
         ok = rep.compare(case, {'segs': segs, 'state': st}, {'segs': ans['segs'], 'state': model_state(variant, ans)},
                          'event trace / final table vs Model.AsyncClient')
-        table_ids = [p[1] for p in st['pending']] if variant == 'dict' else list(st['pending'])
+        table_ids = [p[1] if isinstance(p, list) else p for p in st['pending']]   # whichever manager the object really has
         problems, wrapped = check_trace(variant, c['ops'], segs, table_ids, rep.extra.setdefault('c16_stats', {}))
         for clause, text in problems:
             kf = KF_WRAP if (wrapped and clause in WRAP_CLAUSES) else None
@@ -678,7 +693,7 @@ def reentrant_loss(rng, variant, n):
 
 
 # ------------------------------------------------------------------ several protocol objects in one process
-NET_CLASSES = {'dict': ['tcpcls', 'bare', 'factory'], 'fifo': ['serial']}
+NET_CLASSES = {'dict': ['tcpcls', 'bare', 'factory', 'framercls', 'tcpframercls'], 'fifo': ['serial', 'framercls', 'tcpframercls']}
 
 
 def run_real_net(case):
@@ -808,7 +823,7 @@ def check_net_cases(ctx, rep, cases):
                           clause='private')
         for i, st in enumerate(states):
             ops_i, segs_i = conn_view(variant, case, segs, marks, i)
-            table_ids = [p[1] for p in st['pending']] if variant == 'dict' else list(st['pending'])
+            table_ids = [p[1] if isinstance(p, list) else p for p in st['pending']]   # whichever manager the object really has
             problems, _w = check_trace(variant, ops_i, segs_i, table_ids, stats)
             for clause, text in problems:
                 rep.violation('C16 clause `%s` fails on connection %d of a multi-connection history: %s' % (
@@ -995,6 +1010,7 @@ def run(ctx):
             if variant == 'dict':
                 batch.append(gen_random(rng, variant, 12, rng.choice([8, 20, 40]), tag='udp', proto='udp'))
                 batch.append(gen_random(rng, variant, 12, rng.choice([8, 20, 40]), tag='factory', proto='factory'))
+            batch.append(gen_random(rng, variant, 12, rng.choice([8, 20, 40]), tag='framer-class', proto=rng.choice(['framercls', 'tcpframercls'])))
             base = gen_random(rng, variant, 6, rng.choice([6, 10, 14]), tag='base')
             batch.append(base)
             batch.extend(loss_everywhere(base, rng))
